@@ -57,7 +57,7 @@ MUTATIONS = [
     ('Cython/Compiler/PyrexTypes.py', 'CType.error_condition: `if self.exception_check:` -> `if not self.exception_check:`', 'C32-COND cond:CType.error_condition'),
     ('Cython/Utility/Exceptions.c', '__PYX_CHECK_FLOAT_EXCEPTION: `(value) != (value)` -> `(value) == (value)`', 'C32-COND cond:__PYX_CHECK_FLOAT_EXCEPTION'),
     ('Cython/Compiler/Nodes.py', 'FuncDefNode error exit: `if err_val is not None or exc_check:` -> `and`', 'C32-DEF def:error-exit'),
-    ('Cython/Compiler/Nodes.py', 'FuncDefNode error exit: delete `code.put_unraisable(...)`', 'C32-DEF (anchor: ANALYSIS-ERROR) / def:error-exit'),
+    ('Cython/Compiler/Nodes.py', 'FuncDefNode error exit: delete `code.put_unraisable(...)`', 'C32-DEF def:error-exit:neither'),
     ('Cython/Compiler/Nodes.py', 'FuncDefNode error exit: add put_add_traceback next to put_unraisable', 'C32-DEF def:error-exit both'),
     ('Cython/Compiler/Nodes.py', 'FuncDefNode error exit: `if err_val is not None:` (assignment of the return value) -> `if err_val is None:`', 'C32-DEF def:error-exit retval'),
     ('Cython/Compiler/Nodes.py', 'CFuncDefNode.error_value: `return self.entry.type.exception_value` -> `return None`', 'C32-DEF def:CFuncDefNode.error_value'),
@@ -66,14 +66,22 @@ MUTATIONS = [
     ('Cython/Utility/Exceptions.c', '__Pyx_WriteUnraisable: delete `PyErr_WriteUnraisable(ctx);` in the else branch', 'C32-CHELP chelp:__Pyx_WriteUnraisable'),
     ('Cython/Utility/Exceptions.c', '__Pyx_WriteUnraisable: `if (nogil) PyGILState_Release(state)` -> `if (!nogil)`', 'C32-CHELP chelp:__Pyx_WriteUnraisable'),
     ('Cython/Compiler/Code.py', 'put_unraisable: drop the nogil argument from the emitted call', 'C32-I5'),
+    ('Cython/Utility/Exceptions.c', '__Pyx_ErrOccurredWithGIL: `err = !!PyErr_Occurred()` -> `!PyErr_Occurred()`', 'C32-CHELP chelp:__Pyx_ErrOccurredWithGIL'),
+    ('Cython/Compiler/ExprNodes.py', 'generate_cfunction_call: `if exc_check:` -> `if exc_check and exc_val is None:` (except? loses PyErr_Occurred)', 'C32-CALL call:other/check=True/value=set'),
+    ('Cython/Compiler/Nodes.py', 'CFuncDefNode.error_value: `return "0"` -> `return "-1"` for object returns', 'C32-DEF def:CFuncDefNode.error_value'),
 ]
-SILENT_EDITS = [
-    'generate_cfunction_call: rename locals exc_checks/exc_val/exc_check; read func_type.exception_value directly instead of the alias',
+SILENT_EDITS = [     # behaviour-preserving edits tried on the scratch copy: all 12 stayed silent (exit 0)
+    'generate_cfunction_call: rename locals exc_checks/exc_val/exc_check',
     'generate_cfunction_call: build the condition with an explicit loop-free `cond = a + " && " + b` instead of join',
     'generate_cfunction_call: swap the order of the is_memoryviewslice / is_pyobject branches',
     'FuncDefNode error exit: `if not (err_val is None and not exc_check): traceback else: unraisable`',
     'CType.error_condition: `"(%s == (%s)%s)" %` -> f-string; ExceptionValue.exception_test_code: operands of == swapped and parenthesised',
-    'Exceptions.c: __Pyx_ErrOccurredWithGIL `err = PyErr_Occurred() != NULL`',
+    'Exceptions.c: __Pyx_ErrOccurredWithGIL `err = PyErr_Occurred() != NULL`; __Pyx_WriteUnraisable: braces around the release',
+    'maybe_check_py_error: early `return` + conditional expression for the test text',
+    'translate_cpp_exception: "try {" and the statement merged into one putln; goto and "}" merged',
+    'FuncDefNode error exit: `propagate = err_val is not None or caller_checks; if propagate:`',
+    'CFuncDefNode.error_value: `ftype = self.entry.type; return ftype.exception_value`',
+    'get_exception_handler: shared `generic = "__Pyx_CppExn2PyErr();"` local, elif -> if',
 ]
 
 PYERR, PYERR_GIL = 'PyErr_Occurred()', '__Pyx_ErrOccurredWithGIL()'
@@ -676,7 +684,7 @@ def nan_macro_problems(ctx, name, body_params, body):
 
 def rule_cond(ctx):
     ix = ctx.index
-    r = Rule('C32-COND', 'error conditions built by CType/CTypedefType.error_condition and ExceptionValue.exception_test_code: sentinel equality, && PyErr_Occurred() iff exception_check', floor=16)
+    r = Rule('C32-COND', 'error conditions built by CType/CTypedefType.error_condition and ExceptionValue.exception_test_code: sentinel equality, && PyErr_Occurred() iff exception_check', floor=21)
     m = ix.mod('PyrexTypes')
 
     # ---- CType.error_condition
@@ -982,7 +990,7 @@ def error_exit_problems(rows):
 def rule_def(ctx):
     ix = ctx.index
     r = Rule('C32-DEF', 'error exit of a function definition: exactly one of traceback / unraisable, traceback iff an error value exists or the caller checks; error value assigned; '
-                        'CFuncDefNode reads the declaration the call side reads', floor=14)
+                        'CFuncDefNode reads the declaration the call side reads', floor=17)
     fd = ix.cls('Nodes', 'FuncDefNode')
     fn = fd.methods.get('generate_function_definitions')
     if fn is None:
@@ -1247,7 +1255,7 @@ def err_occurred_problems(text, name='__Pyx_ErrOccurredWithGIL'):
 
 
 def rule_chelp(ctx):
-    r = Rule('C32-CHELP', 'C helpers: __Pyx_ErrOccurredWithGIL reads the error indicator under the GIL; __Pyx_WriteUnraisable clears the error indicator on every path and brackets by nogil', floor=3)
+    r = Rule('C32-CHELP', 'C helpers: __Pyx_ErrOccurredWithGIL reads the error indicator under the GIL; __Pyx_WriteUnraisable clears the error indicator on every path and brackets by nogil', floor=5)
     for name, fnc in (('__Pyx_ErrOccurredWithGIL', err_occurred_problems), ('__Pyx_WriteUnraisable', None)):
         ds = [d for d in ctx.cat.decls.get(name, []) if d.kind == 'func']
         if not ds:
@@ -1280,5 +1288,5 @@ HELPERS = ('__Pyx_WriteUnraisable', '__Pyx_AddTraceback', '__Pyx_ErrOccurredWith
 def run(ctx):
     cpp, tr, roles = rule_cpp(ctx)
     rules = [rule_call(ctx, tr, roles), cpp, rule_cond(ctx), rule_def(ctx), rule_chelp(ctx),
-             rule_I5(ctx, modules=('Code', 'ExprNodes', 'PyrexTypes', 'Nodes', 'ModuleNode'), names=lambda n: n in HELPERS, floor=4, rid='C32-I5')]
+             rule_I5(ctx, modules=('Code', 'ExprNodes', 'PyrexTypes', 'Nodes', 'ModuleNode'), names=lambda n: n in HELPERS, floor=5, rid='C32-I5')]
     return rules
